@@ -20,6 +20,8 @@ TRUSTED = [
     "SymPy CG(...).doit(): only its reflection symmetry is used (Section hypothesis CG_reflection), validated exactly for all j <= 3 on every run",
     "qrules data: InteractionProperties.parity_prefactor equals P P1 P2 (-1)^(J-s1-s2) and LS alternatives of constrained nodes conserve parity "
     "(checked on the corpus on every run); Python's string order for get_sorted_states is taken from Python (name ranks)",
+    "builder state across formulate() calls is not part of the Gallina model (the model is a function of the transition list and the flags); "
+    "it is exercised by histories in the numeric harness and in the correspondence (fresh builder vs builder with an earlier model)",
     "Wigner-D factors are common to both formalisms and are not modelled (the numeric harness evaluates them)",
 ]
 
@@ -103,7 +105,9 @@ def run(chk):
     chk.add_cases(sdoc["evaluations"], sdoc["distinct"], sdoc["samples"],
                   "numeric: 9 reactions in both formalisms x random Gaussian-rational LS coefficients: induced helicity coefficients consistent "
                   "within each shared symbol (40 digits), helicity intensity = canonical intensity at random angles, relative sign of chains "
-                  "sharing a symbol = product of eta over the reversed nodes, CG reflection exactly for all j<=3")
+                  "sharing a symbol = product of eta over the reversed nodes, CG reflection exactly for all j<=3; HISTORIES: every helicity reaction "
+                  "of the corpus (incl. the same resonance twice, chic0_omegaomega) on ONE builder walked through naming-flag settings with "
+                  "formulate() after each step, ending in the standard flags, sign check on every model formulated on the way")
     chk.cov["input_distribution"] = sdoc.get("kinds", {})
     for f in sdoc["failures"]:
         chk.violation(f["signature"], f["what"], {"case": f["case"], "search": "search_C03.py"}, True)
